@@ -99,7 +99,7 @@ func c13Thrift(cs *h.Case, desc *thrift.TypeDescriptor, root *gen.Type, v *tref.
 
 func runC13(c *h.Ctx) {
 	c.Run("thrift", c.N(8000, 400000), func(cs *h.Case) {
-		sc := gen.GenSchema(cs.R, gen.Cfg{MaxDepth: 3, MaxFields: 6, BigIDs: true, Recursive: true, Aliases: true, Requiredness: cs.R.Chance(40)})
+		sc := gen.GenSchema(cs.R, gen.Cfg{MaxDepth: 3, MaxFields: 6, BigIDs: true, Recursive: true, Aliases: true, Requiredness: cs.R.Chance(40), Typedefs: true})
 		root := structType(sc.Root)
 		cs.Info("idl", sc.IDL())
 		desc, _, err := ParseRoot(sc, thrift.NewDefaultOptions())
